@@ -5,5 +5,5 @@ cd "$(dirname "$0")"
 python3 translate.py /repo lean/Flipdot/Generated >/dev/null
 (cd lean && lake build)
 # static tie modules: non-fatal here (a topic the translator cannot read is reported by ./check, not by setup)
-(cd lean && lake build Flipdot.Tie.Message Flipdot.Tie.SignType Flipdot.Tie.Serial Flipdot.Tie.VSign Flipdot.Tie.Controller Flipdot.Tie.VSignFull Flipdot.Tie.Core) || true
+(cd lean && lake build Flipdot.Tie.Message Flipdot.Tie.SignType Flipdot.Tie.Serial Flipdot.Tie.VSign Flipdot.Tie.Controller Flipdot.Tie.VSignFull Flipdot.Tie.Core Flipdot.Tie.SerialBus Flipdot.Tie.FrameIo) || true
 (cd harness && CARGO_NET_OFFLINE=true cargo build --offline)
